@@ -189,20 +189,36 @@ theorem hop_by_hop_headers_removed (ver : Ver) (method : Bytes) (h : Head) (kept
     (hc : convertResponse ver method h = some (kept, bl)) :
     ∀ x ∈ kept, x.1 ∉ hopByHop ∧ (ver.isH1 = false → x.1 ≠ str "transfer-encoding") := by
   have hk := convertResponse_kept ver method h kept bl hc
-  have hok := convFold_keptOk ver h.headers {} ⟨by decide, by intro x hx; simp at hx⟩
+  have hok := convFold_keptOk ver h.headers (connInit h.headers)
+    ⟨by simp [connInit], by intro x hx; simp [connInit] at hx⟩
   intro x hx
   rw [hk] at hx
   obtain ⟨a1, a2, a3, a4, a5⟩ := hok.2 x hx
   exact ⟨by simp [hopByHop, a1, a2, a3, a4], a5⟩
+
+/-- **fields nominated by a `Connection` header are hop-by-hop wherever they stand in the head**: no forwarded header
+has a name that a Connection header of the response lists (before it or after it) -/
+theorem connection_nominated_headers_removed (ver : Ver) (method : Bytes) (h : Head) (kept : List (Bytes × Bytes))
+    (bl : Option BodyLen) (hc : convertResponse ver method h = some (kept, bl)) :
+    ∀ x ∈ kept, ∀ c ∈ h.headers, c.1 = str "connection" → x.1 ∉ connectionTokens c.2 := by
+  have hk := convertResponse_kept ver method h kept bl hc
+  intro x hx c hcm hcn ht
+  rw [hk] at hx
+  exact convFold_dropped ver (connectionTokens c.2) h.headers (connInit h.headers)
+    (fun n hn => mem_connInit_drop h.headers c hcm hcn n hn) (by intro y hy; simp [connInit] at hy) x hx ht
+
+/-- (a head whose Connection header follows the field it nominates, in another spelling) -/
+example : convertResponse .h11 (str "GET") ⟨200, [(str "x-thing", str "v"), (str "connection", str "X-Thing"), (str "server", str "o")]⟩
+    = some ([(str "server", str "o")], none) := by decide
 
 /-- nothing is invented or reordered: the forwarded headers are a sublist of the origin's -/
 theorem forwarded_headers_are_origin_headers (ver : Ver) (method : Bytes) (h : Head) (kept : List (Bytes × Bytes))
     (bl : Option BodyLen) (hc : convertResponse ver method h = some (kept, bl)) :
     kept.Sublist h.headers := by
   have hk := convertResponse_kept ver method h kept bl hc
-  obtain ⟨k, hk1, hk2⟩ := convFold_kept_sublist ver h.headers {}
+  obtain ⟨k, hk1, hk2⟩ := convFold_kept_sublist ver h.headers (connInit h.headers)
   rw [hk, hk1]
-  simpa using hk2
+  simpa [connInit] using hk2
 
 /-- **every end-to-end header is forwarded**: a header that is not hop-by-hop, not a framing header
 and not named by a Connection header of the response reaches the client -/
@@ -214,8 +230,11 @@ theorem end_to_end_headers_kept (ver : Ver) (method : Bytes) (h : Head) (kept : 
   have hk := convertResponse_kept ver method h kept bl hc
   simp only [hopByHop, List.mem_cons, List.not_mem_nil, or_false, not_or] at h1
   rw [hk]
-  refine convFold_keeps ver x h1.1 h2 h3 h.headers {} ?_ h4 (Or.inr hx)
-  simp [h1.2.1, h1.2.2.1, h1.2.2.2]
+  refine convFold_keeps ver x h1.1 h2 h3 h.headers (connInit h.headers) ?_ h4 (Or.inr hx)
+  simp only [connInit, List.mem_append, List.mem_flatten, List.mem_map, List.mem_filter, not_or]
+  refine ⟨by simp [h1.2.1, h1.2.2.1, h1.2.2.2], ?_⟩
+  rintro ⟨l, ⟨c, ⟨hcm, hcn⟩, rfl⟩, hl⟩
+  exact h4 c hcm (by simpa using hcn) hl
 
 /-! ## the request -/
 
